@@ -11,15 +11,19 @@ theorem Pool.weight_congr {p q : Pool Key} (hk : p.keys = q.keys) (hw : p.ws = q
   unfold Pool.weight Pool.find; rw [hk, hw]
 
 /-- the specification after one operation -/
-def specStep (sp : Spec) : Op → Spec
+def specStep (viaRb : Bool) (sp : Spec) : Op → Spec
   | .upsert _ (some (.negSucc _)) => sp
   | .upsert u (some (.ofNat w)) => sp.upsert u.key (some w)
   | .upsert u none => sp.upsert u.key none
+  -- an add whose meter factory fails defines nothing (a meter is only created by the rebalancer, for a
+  -- server it has no record of); otherwise it is an ordinary add / update
+  | .upsertFailing u w => if viaRb && (sp u.key).isNone then sp else sp.upsert u.key w
   | .remove u => sp.remove u.key
   | _ => sp
 
-/-- the set (with configured weights) defined by the add / update / remove calls of a history -/
-def specOf (ops : List Op) : Spec := ops.foldl specStep Spec.empty
+/-- the set (with configured weights) defined by the add / update / remove calls of a history, for a
+    pool managed through the rebalancer (`viaRb`) or directly -/
+def specOf (viaRb : Bool) (ops : List Op) : Spec := ops.foldl (specStep viaRb) Spec.empty
 
 structure Sys.Inv (s : Sys) : Prop where
   bal : s.bal.WF
@@ -264,7 +268,7 @@ theorem Sys.meter_spec {s : Sys} (h : s.Inv) {sp : Spec} (hr : s.Refines sp) (i 
 
 /-- **every operation preserves the invariant and refines the specification step** -/
 theorem Sys.step_spec {s : Sys} (h : s.Inv) {sp : Spec} (hr : s.Refines sp) (op : Op) :
-    (s.step op).1.Inv ∧ (s.step op).1.Refines (specStep sp op) ∧ s.Same (s.step op).1 := by
+    (s.step op).1.Inv ∧ (s.step op).1.Refines (specStep s.viaRb sp op) ∧ s.Same (s.step op).1 := by
   cases op with
   | upsert u w =>
     cases w with
@@ -277,6 +281,42 @@ theorem Sys.step_spec {s : Sys} (h : s.Inv) {sp : Spec} (hr : s.Refines sp) (op 
         obtain ⟨a, b, c, d, e, f⟩ := Sys.upsert_spec h hr u (some w)
         exact ⟨a, b, ⟨c, d, f, le_of_eq e.symm⟩⟩
       | negSucc w => exact ⟨h, hr, Sys.Same.rfl' s⟩
+  | upsertFailing u w =>
+    have hiff : (s.viaRb && (s.reb.find u.key).isNone) = (s.viaRb && (sp u.key).isNone) := by
+      by_cases hv : s.viaRb = true
+      · have := hr u.key
+        unfold Sys.configured at this
+        rw [if_pos hv] at this
+        unfold Reb.configured at this
+        have h1 : (s.reb.find u.key).isSome = (sp u.key).isSome := by
+          rw [Bool.eq_iff_iff, Reb.find_eq, Pool.find_isSome, ← Pool.weight_isSome, this]
+        rw [hv]
+        simp only [Bool.true_and]
+        cases hx : s.reb.find u.key <;> cases hy : sp u.key <;> simp [hx, hy] at h1 ⊢
+      · rw [Sys.viaRb_false hv]; rfl
+    by_cases hc : (s.viaRb && (s.reb.find u.key).isNone) = true
+    · have e : s.step (.upsertFailing u w) = ({ s with reb := s.reb.upsertMeterFails u w }, .errMeter) := by
+        simp only [Sys.step]; rw [if_pos hc]
+      have e2 : specStep s.viaRb sp (.upsertFailing u w) = sp := by
+        simp only [specStep]; rw [← hiff, if_pos hc]
+      rw [e, e2]
+      have hv : s.viaRb = true := by
+        cases hvv : s.viaRb
+        · rw [hvv] at hc; simp at hc
+        · rfl
+      have hf : s.reb.find u.key = none := by
+        rw [hv] at hc; simpa using hc
+      obtain ⟨i1, i2, i3, i4, _, _⟩ := Reb.upsertMeterFails_spec (h.reb hv) u w hf
+      have hsh : (s.reb.upsertMeterFails u w).shadow = s.reb.shadow := by unfold Reb.shadow; rw [i2]
+      exact Sys.withReb_spec h hr hv i1 hsh (by rw [i3, i4]; exact h.timer) i4
+    · have e : s.step (.upsertFailing u w) =
+          ((if s.viaRb then { s with reb := s.reb.upsert s.now u w } else s.withBal (s.bal.upsert u w)), .ok) := by
+        simp only [Sys.step]; rw [if_neg hc]
+      have e2 : specStep s.viaRb sp (.upsertFailing u w) = sp.upsert u.key w := by
+        simp only [specStep]; rw [← hiff, if_neg hc]
+      rw [e, e2]
+      obtain ⟨a, b, c, d, e', f⟩ := Sys.upsert_spec h hr u w
+      exact ⟨a, b, ⟨c, d, f, le_of_eq e'.symm⟩⟩
   | remove u =>
     obtain ⟨a, b, c, _, _⟩ := Sys.remove_spec h hr u
     exact ⟨a, b, c⟩
@@ -332,13 +372,14 @@ theorem Sys.step_spec {s : Sys} (h : s.Inv) {sp : Spec} (hr : s.Refines sp) (op 
 
 /-- **after every history**: invariant and refinement -/
 theorem Sys.applyOps_spec (ops : List Op) : ∀ {s : Sys} {sp : Spec}, s.Inv → s.Refines sp →
-    (s.applyOps ops).Inv ∧ (s.applyOps ops).Refines (ops.foldl specStep sp) ∧ s.Same (s.applyOps ops) := by
+    (s.applyOps ops).Inv ∧ (s.applyOps ops).Refines (ops.foldl (specStep s.viaRb) sp) ∧ s.Same (s.applyOps ops) := by
   induction ops with
   | nil => intro s sp h hr; exact ⟨h, hr, Sys.Same.rfl' s⟩
   | cons op ops ih =>
     intro s sp h hr
     obtain ⟨a, b, c⟩ := Sys.step_spec h hr op
     obtain ⟨a', b', c'⟩ := ih a b
+    rw [c.viaRb] at b'
     exact ⟨a', b', ⟨c'.viaRb.trans c.viaRb, c'.sticky.trans c.sticky, c'.backoff.trans c.backoff, le_trans c.now c'.now⟩⟩
 
 end RB
